@@ -116,9 +116,13 @@ def poly(t, atom_map=None):
         r = atom_map(t)
         if r is not None and r != t:
             return poly(r, atom_map)
+    if tag == "call" and t[1] in _LEN_CANON and len(t[2]) == 1:
+        # the length of a Vec and of the slice it derefs to, of a String and of its str, are the same quantity
+        t = ("call", _LEN_CANON[t[1]], t[2])
     return Poly.atom(t)
 
 
+_LEN_CANON = {"[]::len": "Vec::len", "String::len": "str::len"}
 _FLOAT_CALLS = ("Fragment::", "f64::")
 
 
